@@ -7,9 +7,7 @@ use crate::report::{finish, Acc, Ctx, Level};
 use crate::session::{assemble, Asm};
 use crate::util;
 use serde_json::{json, Value};
-use std::sync::atomic::{AtomicBool, AtomicUsize, Ordering};
-use std::sync::Mutex;
-use std::time::{Duration, Instant};
+use std::sync::atomic::Ordering;
 
 pub const TOKENS: [&str; 32] = [
     "ret", "jmp", "not", "add", "br", "ld", "halt", "trap", "push", "call", "r1", "#5", "#-3", "x1F", "lbl", "xg",
@@ -178,83 +176,50 @@ pub fn run(ctx: &Ctx) -> i32 {
         (si, idx - offsets[si])
     };
 
-    // Watchdog: a case that runs for 60 s is re-reported as a hang (deterministic re-run first).
-    let inflight: Vec<Mutex<Option<(Instant, String, bool)>>> = (0..64).map(|_| Mutex::new(None)).collect();
-    let slot_counter = AtomicUsize::new(0);
-    let done = AtomicBool::new(false);
-    thread_local! { static SLOT: std::cell::Cell<usize> = const { std::cell::Cell::new(usize::MAX) }; }
-    let hung: Mutex<Vec<(String, bool)>> = Mutex::new(Vec::new());
-
+    // Watchdog: SIGALRM kills a worker whose case runs for 60 s; the parent learns the index.
+    crate::isolate::CASE_ALARM_S.store(60, Ordering::Relaxed);
     let mut all = Acc::new();
-    std::thread::scope(|sc| {
-        sc.spawn(|| {
-            while !done.load(Ordering::Relaxed) {
-                std::thread::sleep(Duration::from_millis(500));
-                for slot in &inflight {
-                    let g = slot.lock().unwrap();
-                    if let Some((t, text, stack)) = &*g {
-                        if t.elapsed() > Duration::from_secs(60) {
-                            let mut h = hung.lock().unwrap();
-                            if !h.iter().any(|(x, _)| x == text) {
-                                h.push((text.clone(), *stack));
-                            }
-                        }
-                    }
+    for flag in [false, true] {
+        let parts = pooled(Some(Env::new(flag)), total, 256, Acc::new, |acc, idx| {
+            let (si, off) = locate(idx);
+            let (text, stack) = (spaces[si].make)(off);
+            if stack != flag {
+                return;
+            }
+            acc.eval(spaces[si].name);
+            let mut v = judge(&text, stack);
+            if v.is_some() {
+                v = confirm_fresh(|| judge(&text, stack));
+            }
+            match v {
+                Some((sig, what)) => {
+                    acc.outcome(format!("violation:{sig}"));
+                    let shown: String = if text.len() > 400 { format!("{}…[{} bytes]", text.chars().take(200).collect::<String>(), text.len()) } else { text.clone() };
+                    acc.violation(format!("C05/{sig}"), what, json!({"source": if text.len() > 4000 { Value::Null } else { json!(text) }, "source_shown": shown, "space": spaces[si].name, "index": off, "stack_feature": stack}));
                 }
-                if !hung.lock().unwrap().is_empty() {
-                    // cannot kill the worker: report and leave
-                    let h = hung.lock().unwrap();
-                    let (text, stack) = &h[0];
-                    let file = ctx.verif_dir.join("replays").join(format!("C05-hang-{:016x}.json", util::hash_str(text)));
-                    let _ = std::fs::create_dir_all(ctx.verif_dir.join("replays"));
-                    let _ = std::fs::write(&file, serde_json::to_string_pretty(&json!({"property": "C05", "signature": "total/hang", "what": "assembling did not return within 60 s", "cases": [{"source": text, "stack_feature": stack}]})).unwrap());
-                    ctx.say(&format!("VIOLATION property=C05 replay={}", file.display()));
-                    std::process::exit(1);
+                None => {
+                    let key = outcome_key(&text, stack);
+                    if key.starts_with("image") { acc.gate("some-image"); } else { acc.gate("some-diagnostic"); acc.nontrivial(); }
+                    acc.outcome(key);
+                    if idx % 50021 == 0 {
+                        acc.sample(format!("{idx}"), json!({"space": spaces[si].name, "source": text.chars().take(120).collect::<String>()}));
+                    }
                 }
             }
         });
-        for flag in [false, true] {
-            let parts = pooled(Some(Env::new(flag)), total, 256, Acc::new, |acc, idx| {
-                let (si, off) = locate(idx);
-                let (text, stack) = (spaces[si].make)(off);
-                if stack != flag {
-                    return;
-                }
-                let slot = SLOT.with(|s| {
-                    if s.get() == usize::MAX {
-                        s.set(slot_counter.fetch_add(1, Ordering::Relaxed) % 64);
-                    }
-                    s.get()
-                });
-                *inflight[slot].lock().unwrap() = Some((Instant::now(), text.clone(), stack));
-                acc.eval(spaces[si].name);
-                let mut v = judge(&text, stack);
-                if v.is_some() {
-                    v = confirm_fresh(|| judge(&text, stack));
-                }
-                match v {
-                    Some((sig, what)) => {
-                        acc.outcome(format!("violation:{sig}"));
-                        let shown: String = if text.len() > 400 { format!("{}…[{} bytes]", text.chars().take(200).collect::<String>(), text.len()) } else { text.clone() };
-                        acc.violation(format!("C05/{sig}"), what, json!({"source": if text.len() > 4000 { Value::Null } else { json!(text) }, "source_shown": shown, "space": spaces[si].name, "index": off, "stack_feature": stack}));
-                    }
-                    None => {
-                        let key = outcome_key(&text, stack);
-                        if key.starts_with("image") { acc.gate("some-image"); } else { acc.gate("some-diagnostic"); acc.nontrivial(); }
-                        acc.outcome(key);
-                        if idx % 50021 == 0 {
-                            acc.sample(format!("{idx}"), json!({"space": spaces[si].name, "source": text.chars().take(120).collect::<String>()}));
-                        }
-                    }
-                }
-                *inflight[slot].lock().unwrap() = None;
-            });
-            for p in parts {
-                all.merge(p);
-            }
+        for p in parts {
+            all.merge(p);
         }
-        done.store(true, Ordering::Relaxed);
-    });
+        // a worker that died on a case (hang -> SIGALRM, abort, stack overflow): that case violates totality
+        for death in crate::isolate::take_deaths() {
+            let (si, off) = locate(death.index);
+            let (text, stack) = (spaces[si].make)(off);
+            let shown: String = text.chars().take(200).collect();
+            all.violation(format!("C05/total/process-died/{}", death.status.replace(' ', "-")), format!("assembling killed the process ({}): hang or abort", death.status), json!({"source": if text.len() > 4000 { Value::Null } else { json!(text) }, "source_shown": shown, "space": spaces[si].name, "index": off, "stack_feature": stack}));
+            let _ = crate::isolate::take_machinery_errors();
+        }
+    }
+    crate::isolate::CASE_ALARM_S.store(0, Ordering::Relaxed);
 
     finish(
         ctx,
